@@ -18,6 +18,12 @@ CHECKS = {
          "All fork trees up to 3 (quick) / 4 (thorough) blocks up to isomorphism with every difficulty vector from the alphabet (SKIP_POW universes as in the repo's fork tests) and real-PoW fork universes; every order of process_block / process_block_header / duplicate / sync_block_headers events including children before parents. After every event: head is an accepted block with accepted ancestors, moved only to strictly more work, has the greatest work among accepted blocks and equals the reference fork choice, reported Next/Fork/Reorg status and fork point equal the model's, verdict and accepted set equal the orphan model's; at quiescence with a unique maximum the best-chain state equals a twin fed the winning path only and is identical over all orders.",
          "Orphan pool within capacity; trees <= 4 blocks; difficulty alphabets {1,3} / {1,2,4}.",
          "DESIGN.md §4 C03"),
+ "C05": ("exploration",
+         "bounded-exhaustive enumeration: every strictly ascending 8-tuple of tiny Cuckoo graphs for each of the 5 graph definitions against an explicit-graph reference; closed near-miss lists on solver-found cycles",
+         "c05",
+         "For edge_bits 3 and 4 (quick; plus 5 in thorough: 10 518 300 tuples per seed) every ascending 8-tuple is verified by the real PoWContext::verify of Cuckatoo/Cuckaroo/Cuckarood/Cuckaroom/Cuckarooz and by a reference that builds the graph from its own siphash-2-4 and decides 'one simple cycle through all edges' by degree/connectivity (cross-checked by an independent DFS enumerator); accept sets must be equal in both directions. Every reference-found 8-cycle at edge_bits 4..12 (and 42-cycles at edge_bits 15) gets the full closed near-miss list (each nonce replaced by every other edge, transpositions, duplicates, out of range, wrong count, unions of shorter cycles, figure-eights, paths). verify_size variant selection per chain type/height/edge_bits is an exhaustive table; Proof write/read over all edge_bits x all padding patterns; to_difficulty against the formula. Every real-code call runs in a forked child under a CPU watchdog (non-termination is a verdict).",
+         "Reference siphash checked against the official vectors; Mainnet-size graphs (2^29+) cannot be solved here: variant selection above edge_bits 29 is observed through the published Cuckatoo vectors only; heights >= 65536 hard-fork intervals are outside the domain.",
+         "DESIGN.md §4 C05"),
  "C06": ("model_checking",
          "snapshot exploration of delivery histories with a closed failure-stage catalogue delivered as probes at every reached state; before/after fingerprint and twin differential oracles",
          "c06",
@@ -30,6 +36,24 @@ CHECKS = {
          "For each scenario (plain extension, fork block, reorg with spends, header-by-header and header-batch reorg, compaction; thorough adds compaction+block, first start, reorg after compaction) every crash point the interrupted operation executes (74/4/74/22/18/42 in quick, 567 in thorough) is exercised: a child process is killed at it, a second process reopens the directory and checks Chain::init, allowed head, validate(false), the unspent set against the reference replay, and equality with an uninterrupted twin after re-delivery. Genuine defects found on the unchanged tree are listed per (scenario, crash label, failure kind) in known_findings.json; any other failing crash point is a VIOLATION.",
          "Kill = process death (page cache survives). Crash points are the hook call sites (MANIFEST.hooks). 270 known findings share three root causes (DESIGN §7); a change that fails at a crash point already listed with the same failure kind is masked.",
          "DESIGN.md §4 C09"),
+ "C10": ("exploration",
+         "bounded-exhaustive enumeration: value catalogue x protocol versions (round trip, byte identity, hash invariance vs a reference layout) and every canonical-form mutation operator at every site of a reference structure map (every tag byte x 256 values)",
+         "c10",
+         "A catalogue of every consensus and wire type (kernels of all variants and field corners, inputs in both encodings, outputs, bodies 0..3x1..3x1..3 (thorough 0..4), transactions, blocks, compact blocks, Proof/ProofOfWork/headers for every edge_bits 10..63 at proof sizes 8 and 42, Segment<T>, SegmentProof, BitmapSegment in all modes at the thresholds, Tip/CommitPos/BlockSums, all handshake and sync messages) is encoded at versions 1, 2, 3, local and db, parsed by a reference structure-map parser, decoded, compared field-wise, re-encoded (byte identity) and hashed (version independence, equality with a reference identity layout). At every site of every encoding: every tag byte x 256, every count +-1, every adjacent swap and duplication in sorted lists, every reserved/padding bit, out-of-range values; an accepted non-canonical encoding that re-encodes differently or must be refused is a violation.",
+         "Trailing unread bytes after a lowered count are an outcome class, not a violation (top-level decoders read one object from the front of a stream). 12 genuine normalisation findings listed in known_findings.json.",
+         "DESIGN.md §4 C10"),
+ "C12": ("exploration",
+         "bounded-exhaustive enumeration: every sub-multiset x permutation x bracketing of a 9-transaction universe through aggregate / cut_through / deaggregate, every grouping and nonce set through compact-block hydration, against a multiset model over known openings",
+         "c12",
+         "Universe of 9 valid transactions with known openings (independent, chained so cut-through applies, multi-kernel, HeightLocked/NRD, zero offset, offset cancelling another's, a double spend), validated on a real chain. Every sub-multiset with repetition up to size 4 (quick) / 5 (thorough), every distinct permutation and every bracketing is aggregated on the real code; kernels must be the multiset union, the offset the scalar sum mod n computed in the harness, inputs/outputs the union minus exactly the matched pairs, all orders/groupings equal, conflicting operands refused. deaggregate for every subset that does not spend itself and every known sub-subset in every order must return the aggregate of the rest. Block::from_reward -> CompactBlock (drawn and 20 chosen nonces, short ids vs a reference SipHash) -> hydrate_from for every ordered set partition must give the identical block.",
+         "Weight limits are not part of the property (validate with Weighting::NoLimit). Two genuine defects repaired by a fix: commit (see known_findings.json 'fixed').",
+         "DESIGN.md §4 C12"),
+ "C13": ("model_checking",
+         "snapshot exploration of delivery histories of fork universes with threshold placements (one below / at / above) delivered as blocks and probes; rule model over the fork tree as oracle",
+         "c13",
+         "Two universes: (1) coinbase spends one below / at / above creation height + maturity on the same fork, on the other fork and with the coinbase below the fork point, forks with different output counts per height (the cutoff is read through the header maturity blocks back on that fork), height-locked kernels one below / at / above on both forks; (2) NRD enabled: duplicate-excess kernels r-1 / r / r+1 apart on one fork, on the other fork, and across rewinds. Every parent-before-child delivery order (both reorg directions, so the rules are evaluated in process_block and inside rewind_and_apply_fork); one-below blocks are probes at every state. process_block must accept iff the rule model accepts.",
+         "AutomatedTesting constants (maturity 3, header version 4 from height 9). Pool admission clauses are covered by C14 when claimed.",
+         "DESIGN.md §4 C13"),
  "C07": ("exploration",
          "bounded-exhaustive enumeration of sizes/positions/leaves/corruptions on the real pmmr code vs an explicitly built reference forest",
          "c07",
